@@ -97,6 +97,7 @@ class Report:
         self.assumptions: List[str] = []
         self.not_decided: List[str] = []
         self.extra: Dict[str, object] = {}
+        self.write_evidence = True
 
     def rule(self, rid, text, min_instances=1) -> RuleRun:
         r = RuleRun(self, rid, text, min_instances)
@@ -126,7 +127,7 @@ class Report:
                 uniq.append(f)
         new = [f for f in uniq if f.key not in open_keys]
         matched = [f for f in uniq if f.key in open_keys]
-        vdir = os.path.join(VERIF, "evidence", "violations", self.prop)
+        vdir = os.path.join(VERIF, "evidence", "violations", self.prop) if self.write_evidence else os.path.join("/tmp", "mhl_verif_scratch_violations", self.prop)
         lines = []
         for f in matched:
             lines.append(f"KNOWN-FINDING: property={self.prop} {f.key} at {f.loc}: {open_keys[f.key].get('what', f.message)[:220]}")
@@ -180,9 +181,10 @@ class Report:
         if level == "proof":
             ev["coverage"]["checker_cmd"] = checker_cmd or ""
             ev["coverage"]["trusted_base"] = trusted_base or []
-        os.makedirs(os.path.join(VERIF, "evidence"), exist_ok=True)
-        with open(os.path.join(VERIF, "evidence", f"{self.prop}.json"), "w") as fh:
-            json.dump(ev, fh, indent=1, default=str)
+        if self.write_evidence:
+            os.makedirs(os.path.join(VERIF, "evidence"), exist_ok=True)
+            with open(os.path.join(VERIF, "evidence", f"{self.prop}.json"), "w") as fh:
+                json.dump(ev, fh, indent=1, default=str)
         for r in self.rules:
             print(f"[{self.prop}] {r.id}: {len(r.instances)} instance(s), {r.discharged}/{r.obligations} obligations discharged")
         for l in lines:
